@@ -85,8 +85,16 @@ func main() {
 		}
 		g := &seqGen{fl: fl, run: NewRunner(root), out: w}
 		master := &rng{s: *seed}
+		anyHang := false
 		for i := 0; i < *hist; i++ {
 			g.history(i, master.next(), *ops)
+			anyHang = anyHang || g.hung
+		}
+		if anyHang {
+			// leaked goroutines may still spin inside the library: leave without waiting for them
+			w.Flush()
+			os.RemoveAll(root)
+			os.Exit(0)
 		}
 		g.run.Reset()
 	case "replay":
@@ -113,8 +121,13 @@ func main() {
 			if i := strings.Index(line, " => "); i >= 0 {
 				line = line[:i]
 			}
-			lhs, res := run.Exec(line)
+			lhs, res, ok := execWithDeadline(run, line)
 			fmt.Fprintf(w, "%s => %s\n", lhs, res)
+			if !ok {
+				w.Flush()
+				os.RemoveAll(root)
+				os.Exit(0)
+			}
 		}
 		run.Reset()
 	default:
